@@ -44,7 +44,18 @@ WhyRT(c, o) ==
     ELSE IF Bodies(o.com2) # Bodies(o.com) THEN "second-generation-comments"
     ELSE ""
 
-Why(c, o) == IF c.op = "read" THEN WhyRead(c, o) ELSE WhyRT(c, o)
+\* large magnitudes (3*10^4 <= |v| <= max float32): the written token denotes Round4 of the value (limb arithmetic), and the value read back
+\* is the original float32 (its spacing exceeds 10^-4 there, so the rounded decimal still identifies it)
+WhyRTBig(c, o) ==
+    IF o.err # "" THEN "raised-" \o o.err
+    ELSE IF o.ids # [k \in 1 .. Len(c.t.P) |-> k - 1 + c.off] \/ o.pids # [k \in 1 .. Len(c.t.P) |-> IF c.t.P[k] = -1 THEN -1 ELSE c.t.P[k] + c.off] THEN "written-ids"
+    ELSE IF Len(o.tok) # Len(c.t.v) THEN "written-row-count"
+    ELSE IF \E k \in 1 .. Len(c.t.v) : \E j \in 1 .. 4 : o.tok[k][j] # Round4Big(c.t.v[k][j]) THEN "written-value-of-large-magnitude"
+    ELSE IF o.bpids # c.t.P \/ o.btys # c.t.ty THEN "parents-or-types"
+    ELSE IF \E k \in 1 .. Len(c.t.v) : \E j \in 1 .. 4 : o.back[k][j] # c.t.v[k][j] THEN "coordinates-or-radii-of-large-magnitude"
+    ELSE ""
+
+Why(c, o) == IF c.op = "read" THEN WhyRead(c, o) ELSE IF c.op = "roundtrip_big" THEN WhyRTBig(c, o) ELSE WhyRT(c, o)
 VARIABLES l, bad
 Init == l = 0 /\ bad = <<>> /\ RInit({<<>>}, {Opt(0, FALSE, FALSE, "utf-8")})
 Next == /\ l < Len(Obs)
